@@ -155,7 +155,10 @@ def check_coinbase_tx(ctx, oid="C15.3"):
         ev2.bind = {tm.length(root): 32} if given else {}
         s = ev2.run(fi, {"block_height": 500000, "block_reward": None, "regtest": False})
         kind, val = rules.strict_outcome(s)
-        txin = tm.app("bits.tx.coinbase_txin", [cbs, b"\xff" * 4, 500000], ty=tm.BYTES)
+        # (the arguments of the opaque call are recorded in the order of coinbase_txin's own parameter list, whatever that is)
+        by_name = {"sequence": b"\xff" * 4, "block_height": 500000}
+        cparams = ctx.fn("bits.tx.coinbase_txin").params()
+        txin = tm.app("bits.tx.coinbase_txin", [cbs] + [by_name.get(pn) for pn in cparams[1:]] if set(cparams[1:]) == set(by_name) else [cbs, b"\xff" * 4, 500000], ty=tm.BYTES)
         outs = [tm.app("bits.tx.txout", [subsidy(500000, False), spk], ty=tm.BYTES)]
         wit = []
         if given:
